@@ -178,7 +178,7 @@ impl Driver for HubSeq {
                             }
                         }
                         if sent_tokens != (0, 0) { and(&mut c, "hs#C07.burns_exactly_the_tokens_sent", hub_b == 0 && hub_s == 0); }
-                        if kind != "withdraw" { slashed_since_check = false; }
+                        if kind != "withdraw" && kind != "update_global" { slashed_since_check = false; }
                     }
                     Err(e) => { err = Some(e.to_string()); }
                 }
@@ -186,7 +186,7 @@ impl Driver for HubSeq {
             // ---- observations after the step
             let st1: State = STATE.load(&deps.storage).unwrap(); let cb1: CurrentBatch = CURRENT_BATCH.load(&deps.storage).unwrap();
             let delegated1: u128 = deps.querier.delegations.iter().map(|d| d.1).sum();
-            let pricing = accepted && kind != "withdraw";
+            let pricing = accepted && kind != "withdraw" && kind != "update_global";     // an index update prices nothing and runs no slashing check
             if pricing { and(&mut c, "hs#C02.books_le_delegated", st1.total_bond_bsei_amount.u128() + st1.total_bond_stsei_amount.u128() <= delegated1); }
             if accepted && (kind == "bond" || kind == "bond_stsei" || kind == "bond_rewards" || kind.starts_with("convert") || kind == "check_slashing") {
                 and(&mut c, "hs#C02.liquid_balance_untouched", queue.len() == queue.len() && deps.querier.balance + 0 == deps.querier.balance && paid == 0);
